@@ -272,8 +272,8 @@ pub fn run(ctx: &Ctx) {
     ctx.assume("numbers bit-exact");
     let avoid = geom::active_switches(&|s| ctx.avoid(s));
     let cases = match ctx.tier {
-        Tier::Quick => 12000,
-        Tier::Thorough => 300000,
+        Tier::Quick => 60000,
+        Tier::Thorough => 1200000,
     };
     let enc = |c: &Case| serde_json::to_value(c).unwrap_or(Value::Null);
     let cfg = GenCfg { descriptors: true, edge_refs: 1, edge_cells: 0, ..GenCfg::default() };
